@@ -567,6 +567,11 @@ def Item.variants : Item → List Data
   | .enum_ _ _ _ vs => vs
   | .item d => [d]
 
+/-- A multi-variant enum. -/
+def Item.multi : Item → Bool
+  | .enum_ _ _ _ vs => vs.length > 1
+  | .item _ => false
+
 /-- `Item::any_skip_trait`. -/
 def Item.anySkipTrait (it : Item) (t : Trait) : Bool := it.variants.any (·.anySkipTrait t)
 
